@@ -425,7 +425,7 @@ const int MC_NOPS = 8;
 static void ph_A(void *u) {
     for (uint64_t t = 0; t < (1u << 19); t++) {
         if (!mc_mine(t)) continue;
-        if ((t & 1023) == 0 && mc_expired()) return;
+        if (mc_tick(1023)) return;
         MC_RUN(OP_HDR, H(t));
     }
 }
@@ -458,7 +458,7 @@ static void ph_C(void *u) {
                     for (int p2 = p1 ? p1 + 1 : 0; p2 <= (p1 ? 15 : 0); p2++)
                         for (int p3 = p2 ? p2 + 1 : 0; p3 <= (p2 ? 15 : 0); p3++, idx++) {
                             if (!mc_mine(idx)) continue;
-                            if ((idx & 255) == 0 && mc_expired()) return;
+                            if (mc_tick(255)) return;
                             MC_RUN(OP_DEV, H(h), I(p1), I(p2), I(p3));
                         }
             }
@@ -490,7 +490,7 @@ static U64Vec g_dom;
 static void ph_closure(void *u) {
     for (size_t i = 0; i < g_dom.n; i++) {
         if (!mc_mine(i)) continue;
-        if ((i & 63) == 0 && mc_expired()) return;
+        if (mc_tick(63)) return;
         MC_RUN(OP_CLOSURE, H(g_dom.v[i]));
     }
     if (mc_wid == 0) MC_RUN(OP_GLOBALS, H(0));
@@ -499,7 +499,7 @@ static U64Vec g_idx;
 static void ph_decode(void *u) {
     for (size_t i = 0; i < g_idx.n; i++) {
         if (!mc_mine(i)) continue;
-        if ((i & 255) == 0 && mc_expired()) return;
+        if (mc_tick(255)) return;
         for (int sub = 0; sub < 8; sub++) MC_RUN(OP_DECODE, H(g_idx.v[i]), I(sub));
     }
 }
